@@ -159,6 +159,21 @@ def run(eng, prop, tier):
         mc = rx(L["ignore_multiline_comment"])
         # a block comment ends at the first */ : no match has a proper prefix that is also a match
         out.append(_solve("multiline-comment-prefix-free", prop, [z3.InRe(s1, mc), z3.Length(s2) > 0, z3.InRe(z3.Concat(s1, s2), mc)]))
+        # the pattern's language IS the language of C-style comments: "/*", then any text without "*/", then "*/"
+        spec = z3.Concat(z3.Re("/*"), z3.Complement(z3.Concat(ANY, z3.Re("*/"), ANY)), z3.Re("*/"))
+        for nm, cs in (("every-block-comment-is-matched-whole", [z3.InRe(s1, spec), z3.Not(z3.InRe(s1, mc))]),
+                       ("only-block-comments-are-matched", [z3.InRe(s1, mc), z3.Not(z3.InRe(s1, spec))])):
+            d = _solve(nm, prop, cs)
+            if d["result"] == "failed" and d.get("witness"):
+                # replay on the real pattern with Python's re
+                import re
+                w = d["witness"].get("s1", "")
+                full = re.fullmatch(L["ignore_multiline_comment"], w) is not None
+                is_comment = w.startswith("/*") and w.endswith("*/") and len(w) >= 4 and "*/" not in w[2:-2] and w[:3] != "/*/" or w == "/**/"
+                is_comment = len(w) >= 4 and w.startswith("/*") and w.endswith("*/") and w.find("*/", 2) == len(w) - 2
+                d["native"] = {"verdict": "violation" if full != is_comment else "not-reproduced",
+                               "detail": f"re.fullmatch(pattern, {w!r}) is {full}; it is {'a' if is_comment else 'not a'} complete block comment"}
+            out.append(d)
         lc = rx(L["ignore_comment"])
         out.append(_solve("line-comment-stops-at-newline", prop, [z3.InRe(s1, lc), z3.Contains(s1, z3.StringVal("\n"))]))
     if prop == "C01":
